@@ -46,7 +46,8 @@ pub enum Scenario {
     /// compile-time half of "regardless of which features the calling crate declares": a tiny library crate that calls
     /// to_dyn! on a Ptr, an RcRefCell and a PtrRwLock Reference is compiled by rustc against the live rrtk (built with std),
     /// as a `#![no_std]` or ordinary crate, with or without cfg(feature = "alloc"/"std") set for it; it must compile whenever
-    /// its control twin (same crate without the to_dyn! calls) does
+    /// its control twin (same crate without the to_dyn! calls) does. The crate names everything by path (no `use rrtk::*`):
+    /// the macro must not rely on helper items being in the caller's scope
     CallerCompiles { no_std: bool, features: bool },
     /// the interpreter crate, which expands to_dyn! for every variant of the build, compiles against rrtk built with
     /// `alloc` only (1) / without any feature (2) whenever its twin without the to_dyn! expansions does
@@ -370,7 +371,7 @@ fn caller_source(no_std: bool, with_to_dyn: bool) -> String {
     let head = if no_std { "#![no_std]\n#![allow(unused, dead_code)]\nextern crate std as host;\n" } else { "#![allow(unused, dead_code)]\nextern crate std as host;\n" };
     let conv = |r: &str| if with_to_dyn { format!("rrtk::to_dyn!(Bump, {})", r) } else { format!("{{ let _ = {}; unimplemented!() }}", r) };
     format!(
-        r#"{head}use rrtk::*;
+        r#"{head}use rrtk::Reference;
 pub trait Bump {{
     fn bump(&mut self);
     fn value(&self) -> u32;
@@ -389,7 +390,7 @@ pub fn from_ptr(p: *mut Counter) -> Reference<dyn Bump> {{
     {ptr}
 }}
 pub fn from_rc(x: Counter) -> Reference<dyn Bump> {{
-    let concrete = rc_ref_cell_reference(x);
+    let concrete = rrtk::rc_ref_cell_reference(x);
     {rc}
 }}
 pub fn from_rw_lock(p: *const host::sync::RwLock<Counter>) -> Reference<dyn Bump> {{
@@ -413,7 +414,7 @@ pub fn borrowing<'a>(p: *mut Borrowing<'a>) -> Reference<dyn Bump + 'a> {{
     {borrowing}
 }}
 pub fn borrowing_rc<'a>(x: Borrowing<'a>) -> Reference<dyn Bump + 'a> {{
-    let concrete = rc_ref_cell_reference(x);
+    let concrete = rrtk::rc_ref_cell_reference(x);
     {borrowing_rc}
 }}
 "#,
